@@ -355,7 +355,8 @@ pub fn write_all(out_dir: &str, by_family: &BTreeMap<String, Vec<GSpec>>) {
     if let Ok(rd) = std::fs::read_dir(out) {
         for ent in rd.flatten() {
             let name = ent.file_name().to_string_lossy().to_string();
-            if ent.path().is_dir() && !wanted.contains(&name) {
+            // probe crates are written by genrun, not by gramgen
+            if ent.path().is_dir() && !wanted.contains(&name) && !name.starts_with("probe_") {
                 let _ = std::fs::remove_dir_all(ent.path());
             }
         }
